@@ -41,7 +41,9 @@ def configs(draw, tier):
     tasks = [[draw(st.sampled_from(["return", "return", "raise", "raise-plain"])) for _ in range(draw(st.integers(1, 3)))]
              for _ in range(ntasks)]
     cancel = draw(st.one_of(st.none(), st.none(), st.tuples(st.integers(0, ntasks - 1), st.integers(1, 6))))
-    return {"kind": draw(st.sampled_from(["gen", "gen", "class"])), "suppress": draw(st.booleans()),
+    # "class-aw": a class-based manager whose instances are ALSO awaitable (pool.acquire() style objects usable
+    # with ``await`` and with ``async with``): decorating with it means entering it
+    return {"kind": draw(st.sampled_from(["gen", "gen", "class", "class-aw"])), "suppress": draw(st.booleans()),
             "enter_susp": draw(st.integers(0, 1)), "exit_susp": draw(st.integers(0, 1)),
             "body_susp": draw(st.integers(0, 2)), "tasks": tasks,
             "cancel": list(cancel) if cancel else None,
@@ -112,9 +114,17 @@ def run_config(case, impl, choices=None, default="rr"):
                 await ctx.suspend(("exit", "class"))
             return bool(case["suppress"] and (isinstance(ev, Exception) or (case.get("suppress_base") and ev is not None)))
 
+    class AwaitableManager(ClassManager):
+        def __await__(self):
+            note("awaited-instead-of-entered", "class")
+            return self
+            yield  # pragma: no cover
+
     if case["kind"] == "gen":
         maker = (a.contextmanager if impl == "a" else contextlib.asynccontextmanager)(gen_manager)
         deco = maker("tag")
+    elif case["kind"] == "class-aw":
+        deco = AwaitableManager()
     else:
         deco = ClassManager()
 
